@@ -29,6 +29,7 @@
 
 From Coq Require Import String.
 From Coq Require Import List NArith Bool Arith Ascii.
+From Martian.C11 Require Import Gen_GrpcEnc.
 Import ListNotations.
 
 Definition bytes := list ascii.
@@ -381,19 +382,41 @@ Record pair := mkPair
     encC : enc; encS : enc;
     adC : st; adS : st }.
 
-Definition pair0 : pair := mkPair false Identity Identity st0 st0.
+(* Header names/values and the `switch h.Value` table are not hand-copied:
+   Gen_GrpcEnc.v is regenerated from h2/grpc/grpc.go on every run. *)
+Definition s_content_type : bytes := list_ascii_of_string gen_content_type_header.
+Definition s_application_grpc : bytes := list_ascii_of_string gen_grpc_content_type.
+Definition s_grpc_encoding : bytes := list_ascii_of_string gen_encoding_header.
 
-Definition s_content_type : bytes := String.list_ascii_of_string "content-type"%string.
-Definition s_application_grpc : bytes := String.list_ascii_of_string "application/grpc"%string.
-Definition s_grpc_encoding : bytes := String.list_ascii_of_string "grpc-encoding"%string.
+(* Go constant name -> model constructor; an unknown name (a new Encoding
+   constant in the source) makes the value unrecognised here, which the
+   correspondence run then reports *)
+Definition enc_of_const (c : bytes) : option enc :=
+  if bytes_eqb c (list_ascii_of_string "Identity"%string) then Some Identity
+  else if bytes_eqb c (list_ascii_of_string "Gzip"%string) then Some Gzip
+  else if bytes_eqb c (list_ascii_of_string "Deflate"%string) then Some Deflate
+  else if bytes_eqb c (list_ascii_of_string "Snappy"%string) then Some Snappy
+  else None.
+
+Fixpoint lookup_enc (v : bytes) (tbl : list (string * string)) : option enc :=
+  match tbl with
+  | [] => None
+  | (n, c) :: tbl' =>
+      if bytes_eqb v (list_ascii_of_string n) then enc_of_const (list_ascii_of_string c)
+      else lookup_enc v tbl'
+  end.
 
 (* the `switch h.Value` of adapter.Header *)
-Definition enc_of_name (v : bytes) : option enc :=
-  if bytes_eqb v (String.list_ascii_of_string "identity"%string) then Some Identity
-  else if bytes_eqb v (String.list_ascii_of_string "gzip"%string) then Some Gzip
-  else if bytes_eqb v (String.list_ascii_of_string "deflate"%string) then Some Deflate
-  else if bytes_eqb v (String.list_ascii_of_string "snappy"%string) then Some Snappy
-  else None.
+Definition enc_of_name (v : bytes) : option enc := lookup_enc v gen_encodings.
+
+(* the zero value of the adapter's `encoding` field: the first constant *)
+Definition default_enc : enc :=
+  match gen_encoding_consts with
+  | c :: _ => match enc_of_const (list_ascii_of_string c) with Some e => e | None => Identity end
+  | [] => Identity
+  end.
+
+Definition pair0 : pair := mkPair false default_enc default_enc st0 st0.
 
 Definition is_grpc (hs : list hfield) : bool :=
   existsb (fun h => bytes_eqb (fst h) s_content_type && bytes_eqb (snd h) s_application_grpc) hs.
